@@ -45,7 +45,9 @@ func cmdConc(args []string) {
 	par := fs.Int("par", 4, "parallel histories")
 	gated := fs.Bool("gated", false, "deterministic gated schedules instead of perturbed ones")
 	sched := fs.String("sched", "", "file of model behaviours (MC_ConcEmit) to replay, one history each")
+	raw := fs.Bool("raw", false, "no store decorator at all: the database runs on the adapter itself (code that asks the store for optional interfaces takes the path it takes in production)")
 	fs.Parse(args)
+	concRaw = *raw
 	var recs []*schedRecord
 	if *sched != "" {
 		recs = loadSchedules(*sched)
@@ -150,6 +152,8 @@ func (g *Gen) concOp(c string, gi int) E {
 	}
 }
 
+var concRaw bool
+
 func runConc(seed int64, be string, maxG, opsPer int) ([][]byte, map[string]int) {
 	p := &Profile{Name: "conc", NumTable: "general", TimeTable: "general", Colls: 1, MaxDocs: 6, Indexes: true, W: weights(nil), NoGenIds: true}
 	g := NewGen(seed, p)
@@ -164,7 +168,11 @@ func runConc(seed int64, be string, maxG, opsPer int) ([][]byte, map[string]int)
 	}
 	defer os.RemoveAll(dir)
 	in := &injector{hook: perturb(seed)}
-	b, err := NewBackend(be, dir, func(s store.Store) store.Store { return &wStore{inner: s, in: in} })
+	wrap := func(s store.Store) store.Store { return &wStore{inner: s, in: in} }
+	if concRaw {
+		wrap = nil
+	}
+	b, err := NewBackend(be, dir, wrap)
 	if err != nil {
 		panic(err)
 	}
